@@ -100,8 +100,8 @@ func genRow(g *Gen, row *LockRow) *Op {
 		if op == nil {
 			continue
 		}
-		if isBatchKind(op.K) && op.K != "NewBatch" && op.K != "BatchRemoveEntities" && len(op.Add)+len(op.Rem) == 0 && op.K != "BatchSetRel" {
-			continue // an empty exchange does nothing at all; not a structural change
+		if isBatchKind(op.K) && op.K != "NewBatch" && op.K != "BatchRemoveEntities" && len(op.Add)+len(op.Rem) == 0 && op.K != "BatchSetRel" && !g.allowEmptyBatch {
+			continue // on an unlocked world an empty exchange does nothing at all; not a structural change
 		}
 		if (op.K == "Add" || op.K == "Remove" || op.K == "Exchange") && len(op.Add)+len(op.Rem) == 0 {
 			continue
@@ -132,9 +132,16 @@ func init() {
 func attemptAll(s *Sess, g *Gen, rows []LockRow, source string, fullSnap bool) bool {
 	for i := range rows {
 		row := &rows[i]
+		// (a batch exchange with nothing to add or remove is a batch operation all the same: locked means rejected)
+		g.allowEmptyBatch = true
 		op := genRow(g, row)
+		g.allowEmptyBatch = false
 		if op == nil {
 			continue
+		}
+		if isBatchKind(op.K) && op.K != "NewBatch" && op.K != "BatchRemoveEntities" && op.K != "BatchSetRel" && g.R.Chance(0.15) {
+			op.Add, op.Rem, op.Vals = nil, nil, nil
+			s.Cov.N["locked_empty_batch_exchange"]++
 		}
 		// (the key of a rejected registration is not offered again: the next successful registration is of a
 		// different type and must not inherit anything from the rejected one)
